@@ -312,14 +312,17 @@ def invalid_cases():
     for fam, v, ok in (("convnext", "Swin_T_Weights", False), ("convnext", "nope", False), ("swint", "ConvNeXt_Tiny_Weights", False), ("swint", "Swin_X", False), ("unet", "ConvNeXt_Tiny_Weights", False),
                        ("convnext", "ConvNeXt_Small_Weights", True), ("swint", "Swin_B_Weights", True), ("unet", None, True)):
         yield {"kind": "invalid", "target": "ModelConfig", "field": "pre_trained_weights", "family": fam, "value": v, "valid": ok}
-    for combo in itertools.combinations(["unet", "convnext", "swint"], 2):
-        yield {"kind": "invalid", "target": "BackboneConfig", "set": list(combo), "valid": False}
-    for combo in itertools.combinations(list(HEADS), 2):
-        yield {"kind": "invalid", "target": "HeadConfig", "set": list(combo), "valid": False}
-    for one in ["unet", "convnext", "swint"]:
-        yield {"kind": "invalid", "target": "BackboneConfig", "set": [one], "valid": True}
-    for one in HEADS:
-        yield {"kind": "invalid", "target": "HeadConfig", "set": [one], "valid": True}
+    # every way of passing the attributes: keywords, positionally (None fillers), or positional + one keyword
+    for how in ("kw", "pos", "mixed"):
+        for combo in itertools.combinations(["unet", "convnext", "swint"], 2):
+            yield {"kind": "invalid", "target": "BackboneConfig", "set": list(combo), "how": how, "valid": False}
+        for combo in itertools.combinations(list(HEADS), 2):
+            yield {"kind": "invalid", "target": "HeadConfig", "set": list(combo), "how": how, "valid": False}
+        for one in ["unet", "convnext", "swint"]:
+            yield {"kind": "invalid", "target": "BackboneConfig", "set": [one], "how": how, "valid": True}
+        for one in HEADS:
+            yield {"kind": "invalid", "target": "HeadConfig", "set": [one], "how": how, "valid": True}
+    yield {"kind": "invalid", "target": "BackboneConfig", "set": ["unet", "convnext", "swint"], "how": "pos", "valid": False}
     for v, ok in ((0.0, False), (-1e-3, False), (1e-3, True)):
         yield {"kind": "invalid", "target": "OptimizerConfig", "field": "lr", "value": v, "valid": ok}
 
@@ -465,11 +468,21 @@ def check_invalid(ctx, case):
             fam = case["family"]
             bb = mc.BackboneConfig(**{fam: {"unet": mc.UNetConfig, "convnext": mc.ConvNextConfig, "swint": mc.SwinTConfig}[fam]()})
             return mc.ModelConfig(backbone_config=bb, pre_trained_weights=case["value"])
-        if t == "BackboneConfig":
+        if t in ("BackboneConfig", "HeadConfig"):
+            import attrs
+
+            cls = getattr(mc, t)
             m = {"unet": mc.UNetConfig, "convnext": mc.ConvNextConfig, "swint": mc.SwinTConfig}
-            return mc.BackboneConfig(**{k: m[k]() for k in case["set"]})
-        if t == "HeadConfig":
-            return mc.HeadConfig(**{k: getattr(mc, HEADS[k])() for k in case["set"]})
+            vals = {k: (m[k]() if t == "BackboneConfig" else getattr(mc, HEADS[k])()) for k in case["set"]}
+            how = case.get("how", "kw")
+            if how == "kw":
+                return cls(**vals)
+            names = [f.name for f in attrs.fields(cls)]
+            last = max(names.index(k) for k in vals)
+            if how == "pos":
+                return cls(*[vals.get(nm) for nm in names[: last + 1]])
+            kw_name = names[last]  # "mixed": everything before the last set attribute positionally, the last one by keyword
+            return cls(*[vals.get(nm) for nm in names[:last]], **{kw_name: vals[kw_name]})
         raise ValueError(t)
 
     try:
@@ -478,12 +491,12 @@ def check_invalid(ctx, case):
     except Exception as e:
         raised = e
     ctx.count("validation_checks")
-    what = f"{t}.{case.get('field', case.get('set'))}={case.get('value', '')!r}"
+    what = f"{t}.{case.get('field', case.get('set'))}={case.get('value', '')!r}" + (f" (attributes passed {case['how']})" if case.get("how") else "")
     if case["valid"] and raised is not None:
         ctx.violation("valid-value-rejected", f"{what} is valid but was rejected: {type(raised).__name__}: {str(raised)[:120]}", case)
     if not case["valid"] and raised is None:
         ctx.violation("invalid-value-accepted", f"{what} is invalid but was accepted", case)
-    return ("invalid", t, str(case.get("field", case.get("set"))), repr(case.get("value")), case["valid"])
+    return ("invalid", t, str(case.get("field", case.get("set"))), repr(case.get("value")), case.get("how"), case["valid"])
 
 
 def check_augbehaviour(ctx, case):
